@@ -52,6 +52,13 @@ def gen_cases(tier, seed):
                  interp=str(rng.choice(["onsite_direct", "onsite_spline"])), spin="uks")
         cases.append({"id": "genhist-%03d-%s" % (i, c["family"]), "kind": "genhist", "cfg": c, "seed": seed, "idx": 3000 + i,
                       "_threads": 2, "_weight": 3.0, "_timeout": 1200})
+    # SDMX generators called on point sets of changing length (buffers are kept and re-viewed between calls)
+    nsx = 6 if tier == "quick" else 60
+    kinds = ["sdmx1", "sdmxg1", "sdmxfull", "sdmx", "sdmxg", "sdmx01"]
+    for i in range(nsx):
+        cases.append({"id": "sdmxhist-%03d-%s" % (i, kinds[i % 6]), "kind": "sdmxhist", "sdmx": kinds[i % 6],
+                      "mol": ["H2", "H2O", "He", "LiH", "H", "NH2"][(i + i // 6) % 6], "basis": ["6-31g", "sto-3g", "def2-svp"][i % 3],
+                      "seed": seed, "idx": 4000 + i, "_threads": 2, "_weight": 1.0, "_timeout": 900})
     nc = 12 if tier == "quick" else 120
     for i in range(nc):
         cases.append({"id": "chunk-%03d" % i, "kind": "chunk", "seed": seed, "idx": 5000 + i, "_threads": 2})
@@ -63,7 +70,39 @@ def gen_cases(tier, seed):
 
 def run_case(case, rec):
     rng = rng_for(case["seed"], PROP_NO, case["idx"])
-    {"hist": _hist, "chunk": _chunk, "alias": _alias, "genhist": _genhist}[case["kind"]](case, rec, rng)
+    {"hist": _hist, "chunk": _chunk, "alias": _alias, "genhist": _genhist, "sdmxhist": _sdmxhist}[case["kind"]](case, rec, rng)
+
+
+def _sdmxhist(case, rec, rng):
+    """One EXXSphGenerator (fast and slow module) evaluated on a sequence of point sets of different lengths (longer, shorter,
+    1 point, longer again) and with the backward call in between; every result must equal that of a fresh generator."""
+    from ciderpress.pyscf import sdmx as fast
+    from ciderpress.pyscf import sdmx_slow as slow
+    from vlib import gen
+    mol = gen.make_mol(case["mol"], case["basis"], rng, jitter=0.03)
+    nspin = 1 if mol.spin == 0 else 2
+    settings = gen.sdmx_settings(case["sdmx"], rng)
+    rec.tag("sdmx", case["sdmx"])
+    rec.tag("mol", "%s/%s" % (case["mol"], case["basis"]))
+    rec.tag("basis_has_p_functions", bool(np.any(mol._bas[:, 1] > 0)))
+    dm = gen.psd_dm(mol, rng, nspin)
+    sizes = [int(x) for x in rng.permutation([400, 300, 57, 1, 211, 400])]
+    for modname, mod in (("fast", fast), ("slow", slow)):
+        g = mod.EXXSphGenerator.from_settings_and_mol(settings, nspin, mol)
+        for istep, n in enumerate(sizes):
+            coords = np.ascontiguousarray(rng.normal(size=(n, 3)) * 1.5)
+            f = np.asarray(g.get_features(dm, mol, coords)).copy()
+            ref = np.asarray(mod.EXXSphGenerator.from_settings_and_mol(settings, nspin, mol).get_features(dm, mol, coords))
+            sc = max(float(np.max(np.abs(ref))), 1e-300)
+            rec.check("sdmx_generator_history[%s]" % modname, float(np.max(np.abs(f - ref))) / sc, TOL,
+                      mechanism="EXXSphGenerator[%s].get_features:history-dependence" % modname,
+                      detail={"sizes": sizes, "step": istep, "n": n, "settings": case["sdmx"]})
+            if modname == "fast" and istep % 2 == 1:
+                vm = np.zeros_like(dm)
+                g.get_vxc_(vm, rng.normal(size=f.shape))
+            if float(np.max(np.abs(ref))) > 0 and istep > 0:
+                rec.nontrivial("%s|%d" % (modname, istep))
+    rec.set_sample({"mol": case["mol"], "basis": case["basis"], "sdmx": case["sdmx"], "sizes": sizes})
 
 
 class _World:
@@ -75,7 +114,8 @@ class _World:
         self.cfg = cfg
         self.rng = rng
         self.model = gen.build_model(cfg, rng)
-        names = ["H2O", "HF"] if rng.random() < 0.5 else ["LiH", "NH3"]
+        # the third pool has s-only bases (no p function anywhere): some SDMX code paths are specific to it
+        names = [["H2O", "HF"], ["LiH", "NH3"], ["H2", "He"]][int(rng.choice(3, p=[0.4, 0.35, 0.25]))]
         self.mols = [gen.make_mol(n, cfg["basis"], rng, jitter=0.03) for n in names]
         # a second geometry of the first molecule (same formula, different coordinates)
         self.mols.append(gen.make_mol(names[0], cfg["basis"], rng, jitter=0.08))
@@ -96,10 +136,10 @@ class _World:
             self.dms[key] = self.gen.psd_dm(self.mols[imol], self.rng, 1 if spin == "rks" else 2)
         return self.dms[key]
 
-    def ref(self, imol, spin, k):
-        key = (imol, spin, k)
+    def ref(self, imol, spin, k, level=None):
+        key = (imol, spin, k, level)
         if key not in self.refs:
-            ks = self.fresh_ks(imol, spin)
+            ks = self.fresh_ks(imol, spin, level=level)
             self.nfresh += 1
             n, e, v = self.gen.nr_eval(ks, self.dm(imol, spin, k))
             self.refs[key] = (np.asarray(n), float(e), np.asarray(v))
@@ -118,14 +158,14 @@ def _hist(case, rec, rng):
     ni = ks0["rks"]._numint
     grids = {}
 
-    def grids_for(imol):
-        if imol not in grids:
-            grids[imol] = W.fresh_ks(imol, "rks").grids if imol != 0 else ks0["rks"].grids
-        return grids[imol]
+    def grids_for(imol, lev=None):
+        if (imol, lev) not in grids:
+            grids[imol, lev] = W.fresh_ks(imol, "rks", level=lev).grids if (imol != 0 or lev is not None) else ks0["rks"].grids
+        return grids[imol, lev]
     xc = ks0["rks"].xc
     fam = cfg["family"]
-    ops = ["rks", "rks_batch", "uks", "uks_batch", "repeat", "other_mol", "small_mem", "rks_batch3"]
-    probs = np.array([0.2, 0.2, 0.15, 0.12, 0.08, 0.1, 0.1, 0.05])
+    ops = ["rks", "rks_batch", "uks", "uks_batch", "repeat", "other_mol", "small_mem", "rks_batch3", "other_level"]
+    probs = np.array([0.2, 0.2, 0.15, 0.12, 0.08, 0.1, 0.1, 0.05, 0.1])
     history = []
     imol = 0
     last = None
@@ -137,6 +177,11 @@ def _hist(case, rec, rng):
         if op == "repeat" and last is None:
             op = "rks"
         max_memory = 2000
+        lev = None
+        if op == "other_level":
+            # the same molecule on the other grid level (finer or coarser: a different number of points on the same objects)
+            lev = 1 - int(cfg["level"])
+            op = "rks" if rng.random() < 0.6 else "uks"
         if op == "other_mol":
             imol = int(rng.choice([m for m in range(3) if m != imol]))
             op = "rks" if rng.random() < 0.6 else "uks"
@@ -144,7 +189,7 @@ def _hist(case, rec, rng):
             max_memory = float(rng.choice([1.0, 0.05]))
             op = "rks" if rng.random() < 0.5 else "rks_batch"
         if op == "repeat":
-            op, imol_r, keys, max_memory = last
+            op, imol_r, keys, max_memory, lev = last
             imol = imol_r
         else:
             spin = "uks" if op.startswith("uks") else "rks"
@@ -166,7 +211,7 @@ def _hist(case, rec, rng):
             arg = dms[0] if len(dms) == 1 and op == "uks" else np.stack([np.stack([d[0] for d in dms]), np.stack([d[1] for d in dms])])
         arg_in = arg.copy()
         dig0 = digest(arg)
-        gobj = grids_for(imol)
+        gobj = grids_for(imol, lev)
         mol = W.mols[imol]
         before = (ni.nldfgen, ni.sdmxgen)
         if spin == "rks":
@@ -184,9 +229,9 @@ def _hist(case, rec, rng):
         e = np.atleast_1d(np.asarray(e, dtype=float))
         v = np.asarray(v)
         batched = arg.ndim == (3 if spin == "rks" else 4)
-        history.append({"step": step, "op": op, "mol": imol, "dms": [k[2] for k in keys], "max_memory": max_memory})
+        history.append({"step": step, "op": op, "mol": imol, "dms": [k[2] for k in keys], "max_memory": max_memory, "level": lev})
         for b, key in enumerate(keys):
-            nref, eref, vref = W.ref(*key)
+            nref, eref, vref = W.ref(*key, level=lev)
             if batched:
                 eb = e[b]
                 vb = v[b] if spin == "rks" else v[:, b]
@@ -207,8 +252,8 @@ def _hist(case, rec, rng):
             if prev_ref_e is None or abs(prev_ref_e - eref) > 1e-6 * abs(eref):
                 rec.nontrivial("s%d-b%d" % (step, b))
             prev_ref_e = eref
-        rec.tag("op", op + ("+small_mem" if max_memory != 2000 else ""))
-        last = (op, imol, keys, max_memory)
+        rec.tag("op", op + ("+small_mem" if max_memory != 2000 else "") + ("+other_level" if lev is not None else ""))
+        last = (op, imol, keys, max_memory, lev)
     rec.note("reinit_branch", reinit)
     rec.tag("reinit_taken", reinit["taken"] > 0)
     rec.set_sample({"cfg": cfg, "history": history, "fresh_references": W.nfresh})
